@@ -33,6 +33,17 @@ ASSUMPTIONS = [
     "refinement theorems are stated for finite sources",
 ]
 
+MANIFEST = {
+    "text": "Stream / StreamTeeHub / thub / tee as a heap of iterators (Lean model) refine the immutable list "
+            "model for every operation and every history over finite sources (step_refines, run_refines, "
+            "independent, thub_uses, take_short, peek_pure, count rounding); periodic sources: spec prefix lemma, "
+            "bare periodic take, and the differential tie",
+    "note": "defect D1 (take/peek/limit/skip past the end raise RuntimeError under PEP 479) is recorded as known "
+            "with four signatures; proposed_fixes/D1-take-past-end.diff repairs it (check then prints no finding)",
+    "technique": "Lean 4 refinement proof (hub invariant buf ++ den parent = original, fuel-indexed next) + "
+                 "step-by-step differential histories impl vs model vs spec",
+}
+
 MAPS = [lambda x: x + 1, lambda x: 2 * x, lambda x: -x, lambda x: x * x, lambda x: x % 3, lambda x: x - 7]
 PREDS = [lambda x: x % 2 == 0, lambda x: x > 0, lambda x: x != 0, lambda x: x % 3 != 1,
          lambda x: True, lambda x: False, lambda x: x < 5]
@@ -99,6 +110,12 @@ def _build(src, pool, Stream):
     raise ValueError(k)
 
 
+def _uses(hub):
+    """number of unused copies of a StreamTeeHub (-1 when the private list is not there)"""
+    it = getattr(hub, "_iters", None)
+    return len(it) if isinstance(it, list) else -1
+
+
 def _moved(src, pool, StreamTeeHub):
     """after a successful use of an `obj` source: a plain Stream is dead from now on"""
     if src["k"] == "obj":
@@ -108,12 +125,22 @@ def _moved(src, pool, StreamTeeHub):
 
 
 def impl(case):
+    # a request that does not terminate (e.g. filter rejecting every item of an endless stream)
+    # is cut by a CPU-time alarm; a first alarm is confirmed by a second run with a longer
+    # budget, so that a stalled machine can never turn into a reported "hang"
+    steps, timed_out = _run_history(case, 2.0)
+    if timed_out:
+        steps, timed_out = _run_history(case, 10.0)
+    return {"steps": steps}
+
+
+def _run_history(case, budget):
     from audiolazy import Stream, StreamTeeHub, thub
     from audiolazy import lazy_itertools as lit
-    pool, steps = [], []
-    old = signal.signal(signal.SIGALRM, _alarm)
+    pool, steps, timed_out = [], [], False
+    old = signal.signal(signal.SIGVTALRM, _alarm)
     hook, sys.unraisablehook = sys.unraisablehook, lambda *_a: None   # StreamTeeHub.__del__ after a failed __init__
-    signal.setitimer(signal.ITIMER_REAL, 5.0)
+    signal.setitimer(signal.ITIMER_VIRTUAL, budget)
     try:
         with warnings.catch_warnings():
             warnings.simplefilter("ignore")
@@ -122,18 +149,20 @@ def impl(case):
                     ob = _step(op, pool, Stream, StreamTeeHub, thub, lit)
                 except _Timeout:
                     ob = {"err": "ENDLESS"}
+                    timed_out = True
                 if ob.get("err") == "ENDLESS":      # the request does not terminate: same as the
                     steps.append({"hang": True})    # model's / spec's "hang"; the history stops here
                     break
                 steps.append(ob)
+            signal.setitimer(signal.ITIMER_VIRTUAL, 0)
             for o in pool:                      # no MemoryLeakWarning noise from __del__
-                if isinstance(o, StreamTeeHub):
+                if isinstance(o, StreamTeeHub) and isinstance(getattr(o, "_iters", None), list):
                     o._iters[:] = []
     finally:
-        signal.setitimer(signal.ITIMER_REAL, 0)
-        signal.signal(signal.SIGALRM, old)
+        signal.setitimer(signal.ITIMER_VIRTUAL, 0)
+        signal.signal(signal.SIGVTALRM, old)
         sys.unraisablehook = hook
-    return {"steps": steps}
+    return steps, timed_out
 
 
 def _step(op, pool, Stream, StreamTeeHub, thub, lit):
@@ -164,7 +193,7 @@ def _step(op, pool, Stream, StreamTeeHub, thub, lit):
         if o == "drain":
             return {"v": _capped(iter(obj))}
         if o in ("skip", "limit", "append", "map", "filter"):
-            before = len(obj._iters) if ishub else 0
+            before = _uses(obj) if ishub else 0
             src = op.get("src")
             try:
                 if o == "skip" or o == "limit":
@@ -179,15 +208,17 @@ def _step(op, pool, Stream, StreamTeeHub, thub, lit):
                     except LookupError:
                         # the model pops the use first (Stream(self)), then fails on the argument
                         if ishub:
-                            if not obj._iters:
+                            try:
+                                iter(obj)
+                            except IndexError:
                                 return {"err": "IndexError"}
-                            obj._iters.pop()
                             pool.append(None)
                         return {"err": "noobj"}
                     r = obj.append(*args)
                     _moved(src, pool, StreamTeeHub)
-            except Exception:
-                if ishub and len(obj._iters) < before:
+            except Exception as e:
+                after = _uses(obj) if ishub else 0
+                if ishub and (after < before if before >= 0 else not isinstance(e, IndexError)):
                     pool.append(None)          # the popped use is lost
                 raise
             if ishub:
@@ -578,8 +609,13 @@ def compare(case, io, drv):
     steps = io.get("steps")
     if steps is None:
         return [("model", "impl harness failed: %r" % (io,)), ("spec", "impl harness failed")]
+    # a request on which the real code and the model both do not terminate (filter that rejects a
+    # whole period of an endless stream, list() of an endless stream) is outside the property:
+    # the history is compared up to that step only
+    cut = next((k for k, (a, b) in enumerate(zip(steps, drv["model"])) if a == b == {"hang": True}), None)
     for kind in ("model", "spec"):
-        d = _first_diff(steps, drv[kind])
+        a, b = (steps, drv[kind]) if cut is None else (steps[:cut], drv[kind][:cut])
+        d = _first_diff(a, b)
         if d is not None:
             k, x, y = d
             op = case["ops"][k] if k < len(case["ops"]) else None
